@@ -1,6 +1,9 @@
-(* C16 — the hypotheses of SelfContained are satisfiable, and the completeness premise is needed:
-   a two-member ring (modulus _p and a constant _r2 derived from it) whose operator= copies only _p — the shape of
-   Montgomery<ruint<K>>::operator= — gives, after  A(3); B(5); A = B,  a result that is not a function of B's parameters. *)
+(* C16 — the hypotheses of SelfContained are satisfiable, and the premises are needed:
+   (1) a two-member ring (modulus _p and a constant _r2 derived from it) whose operator= copies only _p — the shape of
+       Montgomery<ruint<K>>::operator= — gives, after  A(3); B(5); A = B,  a result that is not a function of B's parameters;
+   (2) a constructor that keeps a FUNCTION-LOCAL STATIC (`static GFqDom<Any> Zp(P,1);` in a GFqDom constructor: the static is
+       initialised by the first construction of the process) gives the SECOND object built with another parameter members that
+       depend on the first one's parameter: the result of its operations is not what the same construction gives in a fresh process. *)
 From Coq Require Import String List Bool Arith.
 From C16 Require Import ObjModel SelfContained.
 Import ListNotations.
@@ -11,10 +14,13 @@ Definition ex_desc (assign_all : bool) : class_desc := {|
   cd_name := "Ex"; cd_from_ast := false; cd_members := ["_p"; "_r2"]; cd_mutable := []; cd_shared := [];
   cd_copy := Some [("_p", SrcMember "_p"); ("_r2", SrcMember "_r2")];
   cd_assign := Some (("_p", SrcMember "_p") :: if assign_all then [("_r2", SrcMember "_r2")] else []);
-  cd_reads := ["_p"; "_r2"]; cd_params := ["_p"; "_r2"]; cd_copy_effects := []; cd_rc := None; cd_methods := [ex_mul] |}.
+  cd_reads := ["_p"; "_r2"]; cd_params := ["_p"; "_r2"]; cd_init := [("_p", InitParam); ("_r2", InitParam)]; cd_ctor_effects := [];
+  cd_copy_effects := []; cd_rc := None; cd_methods := [ex_mul] |}.
 
-Definition ex_init (p : nat) : string -> nat :=
+Definition ex_pinit (p : nat) (st : string -> nat) : string -> nat :=
   fun x => if String.eqb x "_p" then p else if String.eqb x "_r2" then p * p else 0.
+Definition ex_zero : string -> nat := fun _ => 0.
+Definition ex_ctor_stat (p : nat) (st : string -> nat) : string -> nat := st.
 Definition ex_run (n : string) (s st : string -> nat) (a : unit) : nat := s "_p" + s "_r2".
 Definition ex_eff (n : string) (s st : string -> nat) (a : unit) : string -> nat := s.
 Definition ex_junk (o : nat) (x : string) (a b : string -> nat) : nat := 0.
@@ -29,42 +35,76 @@ Qed.
 Lemma ex_own_footprint : forall b md, In md (cd_methods (ex_desc b)) -> m_const md = true ->
   forall s st a x, existsb (writes_member_b x) (m_effects md) = false -> ex_eff (m_name md) s st a x = s x.
 Proof. reflexivity. Qed.
-Lemma ex_default : forall b p x mp, cd_copy (ex_desc b) = Some mp -> lookup x mp = Some SrcDefault -> ex_init p x = 0.
-Proof.
-  intros b p x mp H. inversion H; subst. cbn. destruct (String.eqb x "_p"); [discriminate|].
-  destruct (String.eqb x "_r2"); discriminate.
-Qed.
-
-Lemma ex_params : forall b p p' x, mem x (cd_params (ex_desc b)) = false -> ex_init p x = ex_init p' x.
-Proof.
-  intros b p p' x H. unfold mem in H. cbn in H.
-  apply orb_false_iff in H. destruct H as [H1 H2]. apply orb_false_iff in H2. destruct H2 as [H2 _].
-  unfold ex_init. rewrite H1, H2. reflexivity.
-Qed.
+Lemma ex_ctor_footprint : forall b, ctor_pure_b (ex_desc b) = true ->
+  forall p st st' x, (forall g, In (RExcluded g) (cd_ctor_effects (ex_desc b)) -> st g = st' g) -> ex_pinit p st x = ex_pinit p st' x.
+Proof. reflexivity. Qed.
 Lemma ex_mutators : forall b md, In md (cd_methods (ex_desc b)) -> m_mutator md = true -> mutator_ok_b (ex_desc b) md = true.
 Proof. intros b md [H|[]] Hm. subst md. discriminate. Qed.
+Lemma ex_init_consistent : forall b, init_consistent_b (ex_desc b) = true.
+Proof. intros b. reflexivity. Qed.
 
 (* complete description: the generic theorem applies to this instance *)
 Definition Example_complete_stmt : Prop :=
-  SelfContained_stmt nat nat unit nat (ex_desc true) ex_init (fun _ => 0) ex_junk ex_run ex_eff ex_eff.
+  SelfContained_stmt nat nat unit nat (ex_desc true) ex_pinit ex_zero ex_zero ex_ctor_stat ex_junk ex_run ex_eff ex_eff.
 Lemma example_complete : Example_complete_stmt.
-Proof. apply self_contained; [apply ex_run_footprint|apply ex_own_footprint|apply ex_default|apply ex_mutators|apply ex_params]. Qed.
+Proof.
+  apply self_contained; [apply ex_run_footprint|apply ex_own_footprint|apply ex_ctor_footprint|apply ex_mutators|apply ex_init_consistent].
+Qed.
 
 (* operator= that forgets _r2: refuted *)
-Definition ex_step := step nat nat unit nat (ex_desc false) ex_init (fun _ => 0) ex_junk ex_run ex_eff ex_eff.
+Definition ex_step := step nat nat unit nat (ex_desc false) ex_pinit ex_zero ex_zero ex_ctor_stat ex_junk ex_run ex_eff ex_eff.
+Definition ex_reach := reach nat nat unit nat (ex_desc false) ex_pinit ex_zero ex_zero ex_ctor_stat ex_junk ex_run ex_eff ex_eff.
+Definition ex_init := init nat nat (ex_desc false) ex_pinit ex_zero ex_zero.
 Definition IncompleteAssign_refuted_stmt : Prop :=
-  exists σ o p s, reach nat nat unit nat (ex_desc false) ex_init (fun _ => 0) ex_junk ex_run ex_eff ex_eff σ /\
-    objs nat nat σ o = Some (p, s) /\
-    snd (ex_step σ (Use nat nat unit o "mul@1" tt)) <> Some (ex_run "mul@1" (ex_init p) (stat nat nat σ) tt).
+  exists σ o p c s, ex_reach σ /\ objs nat nat σ o = Some ((p, c), s) /\
+    snd (ex_step σ (Use nat nat unit o "mul@1" tt)) <> Some (ex_run "mul@1" (ex_init p c) (stat nat nat σ) tt).
 Lemma incomplete_assign_refuted : IncompleteAssign_refuted_stmt.
 Proof.
   pose (s0 := Build_state nat nat (fun _ => None) (fun _ => 0)).
   pose (s1 := fst (ex_step s0 (Construct nat nat unit 0 3))).
   pose (s2 := fst (ex_step s1 (Construct nat nat unit 1 5))).
   pose (s3 := fst (ex_step s2 (Assign nat nat unit 0 1))).
-  exists s3, 0, 5. eexists.
+  exists s3, 0, 5. do 2 eexists.
   split; [|split].
-  - unfold s3, s2, s1, ex_step. apply reach_step. apply reach_step. apply reach_step. apply reach_init.
+  - unfold s3, s2, s1, ex_step, ex_reach. apply reach_step. apply reach_step. apply reach_step. apply reach_init.
+  - reflexivity.
+  - cbn. discriminate.
+Qed.
+
+(* ---- a constructor with a function-local static (the shape of `static GFqDom<Any> Zp(P,1);` in a GFqDom constructor) *)
+Definition sc_char : method_desc := {| m_name := "characteristic@1"; m_const := true; m_reads := ["_p"]; m_effects := []; m_mutator := false; m_writes := [] |}.
+Definition sc_desc (ctor_effects : list effect) : class_desc := {|
+  cd_name := "StaticCtor"; cd_from_ast := false; cd_members := ["_p"]; cd_mutable := []; cd_shared := [];
+  cd_copy := Some [("_p", SrcMember "_p")]; cd_assign := Some [("_p", SrcMember "_p")];
+  cd_reads := ["_p"]; cd_params := ["_p"]; cd_init := [("_p", InitParam)]; cd_ctor_effects := ctor_effects;
+  cd_copy_effects := []; cd_rc := None; cd_methods := [sc_char] |}.
+(* the static Zp holds 0 until the first construction initialises it with that construction's parameter; every construction
+   reduces its own parameter "modulo Zp": it keeps the parameter of the FIRST construction *)
+Definition sc_pinit (p : nat) (st : string -> nat) : string -> nat :=
+  fun x => if String.eqb x "_p" then (if Nat.eqb (st "Zp") 0 then p else st "Zp") else 0.
+Definition sc_ctor_stat (p : nat) (st : string -> nat) : string -> nat :=
+  fun g => if String.eqb g "Zp" then (if Nat.eqb (st "Zp") 0 then p else st "Zp") else st g.
+Definition sc_run (n : string) (s st : string -> nat) (a : unit) : nat := s "_p".
+Definition sc_d := sc_desc [WStaticInit "Zp"].
+Definition sc_step := step nat nat unit nat sc_d sc_pinit ex_zero ex_zero sc_ctor_stat ex_junk sc_run ex_eff ex_eff.
+Definition sc_reach := reach nat nat unit nat sc_d sc_pinit ex_zero ex_zero sc_ctor_stat ex_junk sc_run ex_eff ex_eff.
+Definition sc_init := init nat nat sc_d sc_pinit ex_zero ex_zero.
+
+(* the decider rejects the class (its methods read a parameter-derived member and a constructor touches a static), and it is right:
+   after  A(2); B(7)  the result of B.characteristic() is not the one the same construction B(7) gives in a fresh process *)
+Definition StaticCtor_refuted_stmt : Prop :=
+  method_sc_b sc_d sc_char = false /\ method_sc_b (sc_desc []) sc_char = true /\
+  exists σ o p c s, sc_reach σ /\ objs nat nat σ o = Some ((p, c), s) /\
+    snd (sc_step σ (Use nat nat unit o "characteristic@1" tt)) <> Some (sc_run "characteristic@1" (sc_init p (fun _ => 0)) (stat nat nat σ) tt).
+Lemma static_ctor_refuted : StaticCtor_refuted_stmt.
+Proof.
+  split; [reflexivity|]. split; [reflexivity|].
+  pose (s0 := Build_state nat nat (fun _ => None) (fun _ => 0)).
+  pose (s1 := fst (sc_step s0 (Construct nat nat unit 0 2))).
+  pose (s2 := fst (sc_step s1 (Construct nat nat unit 1 7))).
+  exists s2, 1, 7. do 2 eexists.
+  split; [|split].
+  - unfold s2, s1, sc_step, sc_reach. apply reach_step. apply reach_step. apply reach_init.
   - reflexivity.
   - cbn. discriminate.
 Qed.
